@@ -4,7 +4,9 @@ from props import _orm
 _orm.define(globals(), "C39", ("C39",), "cascades",
             "deterministic simulation: seeded ORM session histories over 4 cascade configurations (default / all / all,delete-orphan with nullable "
             "and NOT NULL FK) plus many-to-one and unidirectional delete-orphan chains; rule functions over the objects' loaded state decide "
-            "which objects must join the session, be expunged, expired or deleted; orphan rows are probed after every flush",
+            "which objects must join the session, be expunged, expired or deleted; orphan rows are probed after every flush, and conversely a member "
+            "that a live parent still holds and nobody marked for deletion must survive it (also after a savepoint rollback discarded the "
+            "removal); expunge of an owner whose loaded collection holds a member already in the 'deleted' state, followed by rollback",
             "seeded search over histories mixing add / collection and reference changes / delete / expunge / expire with flushes; after add the "
             "save-update closure must be in the session (and nothing unreachable), after flush no delete-orphan child without parent may have a "
             "row, removed-and-not-reassociated orphans must be gone, expunge/expire reach the configured closure.  Sampled.",
